@@ -64,7 +64,7 @@ var (
 	aliasFunc   = map[*ssa.Function]string{}
 	aliasField  = map[*types.Var]string{}
 	aliasGlobal = map[*ssa.Global]string{}
-	aliasType   = map[string]string{} // "pkg.New" -> "pkg.Old" (short package paths)
+	aliasType   = map[string]string{}       // "pkg.New" -> "pkg.Old" (short package paths)
 	aliasConst  = map[string]types.Object{} // "<package path>.<reference name>" -> the constant as it is spelled now
 	aliasNotes  []string
 )
